@@ -17,3 +17,21 @@ func verifPerm(site string, vs []Vertex) []Vertex {
 }
 
 var _ = verifPerm
+
+// VerifAdjacency returns deep copies of the out and in adjacency maps
+// (vertex id -> vertex id -> weight) so that a checker can observe edge
+// weights, which the exported API only exposes through the algorithms.
+func VerifAdjacency(g *Graph) (out, in map[interface{}]map[interface{}]int) {
+	cp := func(m map[interface{}]map[interface{}]int) map[interface{}]map[interface{}]int {
+		r := make(map[interface{}]map[interface{}]int, len(m))
+		for k, inner := range m {
+			c := make(map[interface{}]int, len(inner))
+			for k2, w := range inner {
+				c[k2] = w
+			}
+			r[k] = c
+		}
+		return r
+	}
+	return cp(g.adjacencyOut), cp(g.adjacencyIn)
+}
